@@ -1,6 +1,7 @@
 """Runner: build each harness from /repo's current source with goto-cc, decide it with CBMC,
 check the reachability witness twin, replay counterexamples natively, write evidence."""
 import fnmatch
+import threading
 import hashlib
 import json
 import os
@@ -25,7 +26,7 @@ class Job:
                  timeout=None, mem_gb=None, witness=True, witnesses=None, known=(), replay='native',
                  native_srcs=(), native_link=(), functions=(), bounds='', models=(), outside='',
                  solver=None, object_bits=None, slice=False, fs_array=300, expect_fail_desc=None, wdefs=(),
-                 witness_unwind=None, weight=1, tags=()):
+                 witness_unwind=None, weight=1, tags=(), mem_est=None):
         self.name = name
         self.src = src                    # path relative to /verif/harness
         self.defs = list(defs)
@@ -54,6 +55,7 @@ class Job:
         self.witness_unwind = witness_unwind
         self.weight = weight
         self.tags = list(tags)
+        self.mem_est = mem_est            # expected peak GB, for the memory-aware scheduler (default: mem_gb/3 or 3)
 
 
 def sh(cmd, timeout=None, mem_gb=None, cwd=None, env=None):
@@ -121,6 +123,9 @@ class Runner:
         self.work = os.path.join(os.environ.get('VERIF_WORK', os.path.join(VERIF, '.work')), pid)
         self.replay_dir = os.path.join(VERIF, 'replay_out', pid)
         self.known = load_known()
+        self.mem_total = float(os.environ.get('VERIF_MEM_TOTAL_GB', '48'))
+        self.mem_free = self.mem_total
+        self.mem_cv = threading.Condition()
         self.def_timeout = int(os.environ.get('VERIF_JOB_TIMEOUT', '900' if tier == 'quick' else '3600'))
         self.def_mem = float(os.environ.get('VERIF_JOB_MEM_GB', '12' if tier == 'quick' else '24'))
 
@@ -333,6 +338,19 @@ class Runner:
 
     # ------------------------------------------------------------------ one task
     def run_task(self, job, mode):
+        need = min(job.mem_est or ((job.mem_gb or 9) / 3.0), self.mem_total)
+        with self.mem_cv:
+            while self.mem_free < need:
+                self.mem_cv.wait()
+            self.mem_free -= need
+        try:
+            return self.run_task_inner(job, mode)
+        finally:
+            with self.mem_cv:
+                self.mem_free += need
+                self.mem_cv.notify_all()
+
+    def run_task_inner(self, job, mode):
         t0 = time.time()
         d = self.jobdir(job, mode)
         rec = {'job': job.name, 'mode': mode, 'verdict': None, 'notes': []}
